@@ -37,6 +37,16 @@ CLAIMED = {
             "every immediate / label value < 65536 and every flag setting; equality of whole states, except that "
             "SET/SETRF to R15 are compared up to hera-py's stack-overflow warning bookkeeping.",
             "trusted: as C01 plus Spec/PseudoSpec.v, Model/Bitvec.v (OPCODE)"),
+    "C04": ("PARTIAL proof. Proved in Coq over the hand model of checker.py (Model/Preproc.v) and the regenerated "
+            "operation_length / convert / P tables: for every operation class and every operand list that "
+            "type-checks, the number of instructions convert() emits equals checker.operation_length (the obligation "
+            "whose failure shifts every later label); relative label branches are accepted iff the distance is in "
+            "-128..127 and then carry it; every data statement advances the data counter by its cell count and a "
+            "data label gets the current counter. NOT yet a theorem: the whole-program layout statement (each label "
+            "= index of the next emitted instruction in every mode); it is decided by this check's differential "
+            "correspondence (model = real parse+check on generated programs in all four modes) plus an independent "
+            "oracle on the real output.",
+            "trusted: Model/Preproc.v (hand model, differential), tools/translate tables"),
 }
 
 checks = []
